@@ -304,6 +304,7 @@ def run(prog, rep, tier):
                     stores.append((body, b.idx, i, s, s.rv.ops[s.rv.j['fields'].index('encrypt_parameters')]))
     rep.floor('R07.5', len(stores), 2, 'writers of encrypt_parameters')
     store_bb = None
+    find_map_form = False
     for body, bb, i, s, op in stores:
         key = 'R07.5|%s|sets-encrypt_parameters' % body.nkey
         e = expr_of(body, op) if op is not None else ('unknown',)
@@ -341,6 +342,39 @@ def run(prog, rep, tier):
                     store_bb = bb
                 else:
                     why = '; '.join(w)
+                    # combinator form: `self.private_keys.iter().find_map(|k| retrieve_key(.., k).ok().flatten())`
+                    fmc = []
+
+                    def is_fm(kind, obj, b3, fmc=fmc):
+                        if kind == 'call' and obj.cmethod == 'find_map' and obj.ctrait == 'std::iter::Iterator':
+                            fmc.append((b3, obj))
+                            return True
+                        return False
+                    if kop.place is not None and must_derive(body, kop.place[0], is_fm) and len(fmc) == 1:
+                        ft = fmc[0][1]
+                        clo = None
+                        if ft.args[1].place is not None:
+                            for d in body.defs.get(ft.args[1].place[0], []):
+                                if d[2] == 'assign' and d[3].rv.r == 'aggregate' and d[3].rv.j.get('closure'):
+                                    cc = [x for x in prog.closures_of(body) if x.defpath == d[3].rv.j.get('closure')]
+                                    clo = cc[0] if cc else None
+                        ro = origins(body, [ft.args[0].place[0]]) if ft.args[0].place is not None else None
+                        over_keys = ro is not None and any(f[-1] == 'private_keys' for f in ro.fields) and \
+                            not [body.blocks[c].term.cmethod for c in ro.calls if body.blocks[c].term.cmethod in ('skip', 'take', 'rev', 'step_by', 'filter', 'skip_while', 'take_while')]
+                        if clo is not None and over_keys:
+                            rep.fn(clo)
+                            rkc = [b for b in clo.calls() if cnorm(b.term).endswith('crypto::ecc::retrieve_key')]
+                            # the closure yields Some(key) exactly for Ok(Some(key)) of retrieve_key: its result type is Option<key> (a nested
+                            # Option would make `Ok(None)` -- "not a recipient" -- stop the search) and its value is ok().flatten() of that call
+                            flat = clo.lty(0).startswith('std::option::Option<[u8; 32]>')
+                            der = len(rkc) == 1 and must_derive(clo, 0, lambda k, ob, b3: k == 'call' and b3 == rkc[0].idx, extra_transparent=('ok', 'flatten'))
+                            meths = sorted({b.term.cmethod for b in clo.calls()} - {'retrieve_key', 'ok', 'flatten', 'deref', 'as_ref', 'borrow'})
+                            ok = flat and der and not meths
+                            store_bb = bb
+                            find_map_form = ok
+                            why = 'find_map closure: result type Option<key>=%s, value = retrieve_key(..).ok().flatten()=%s, other calls %s' % (flat, der, meths)
+                        else:
+                            why = 'find_map not over self.private_keys or closure not found'
         rep.ob('R07.5', ok, key, 'encrypt_parameters = Some((key from Ok(Some) of retrieve_key, nonce))' if ok else 'encrypt_parameters set from something else than a verified key unwrap: ' + why, body.loc(bb, i))
     if lp is not None:
         # Ok return requires the parameters to be present
@@ -363,6 +397,10 @@ def run(prog, rep, tier):
         loop = lp.loop_blocks()
         nxt = [b for b in lp.calls() if b.term.cmethod == 'next' and b.idx in loop]
         okl = bool(nxt) and store_bb is not None
+        if not nxt and find_map_form:
+            # no explicit loop: find_map tries the keys in order until the closure yields Some (validated above)
+            rep.ob('R07.5', True, 'R07.5|%s|all-keys-tried' % lp.nkey, 'find_map over self.private_keys stops only at a successful unwrap', lp.loc())
+            return
         bad = []
         if okl:
             for u in loop:
